@@ -1,9 +1,12 @@
 (* C03 - No input makes a public entry point panic, overflow or hang.
-   Theorems proved so far concern the lexer stage (every input, every Unicode
-   classification [U]); the whole-pipeline statement is kept visible below and is
-   decided at run time by the correspondence (model says Panic <-> implementation
-   panics, debug and release) and the monitor (catch_unwind around every consumer). *)
-From CL Require Import Base.StrLemmas Model.Lexer Model.Parser Proofs.LexerProofs.
+   Proved for the lexer and for the whole pull parser (every input, every Unicode
+   classification [U], every extension set, debug assertions on or off): the event stream
+   of [events] (PullParser iteration) and of [meta_events] (metadata-only iteration) exists,
+   i.e. no [Panic] site is reached and no fuelled loop of the model runs out of fuel.
+   The model is tied to the code at run time by the correspondence (model says Panic <->
+   implementation panics, debug and release) and the monitor (catch_unwind around every consumer). *)
+From CL Require Import Base.StrLemmas Model.Lexer Model.Parser Proofs.LexerProofs
+  Proofs.ParserSplit Proofs.ParserTotal Proofs.ParserSpans.
 
 (* the token stream exists for every input: the fuel (one unit per character) never runs out *)
 Theorem C03_lexer_total : forall (U : N -> ucls) (s : str) (off : N), exists ts, lex_at U s off = Some ts.
@@ -16,7 +19,48 @@ Theorem C03_lexer_progress :
 Proof. intros U s off ts H. eapply lex_fuel_nonempty. exact H. Qed.
 Print Assumptions C03_lexer_progress.
 
-(* full statement (not yet a theorem): the event stream exists for every input *)
+(* the event stream exists for every input.  [p_strict_escape cfg = false] selects the code as
+   it is now (block_parser.rs:156 no longer asserts the byte length of an escaped token); the
+   other fields of [cfg] (extensions, debug assertions, the two other pre-repair switches) are free *)
 Definition C03_events_total_statement : Prop :=
   forall (U : N -> ucls) (cfg : pcfg) (s : str),
     p_strict_escape cfg = false -> exists evs, events U cfg s = Done evs.
+
+Theorem C03_events_total : C03_events_total_statement.
+Proof. intros U cfg s H. destruct (events_ok U cfg s H) as (evs & E & _). exists evs. exact E. Qed.
+Print Assumptions C03_events_total.
+
+(* the same for the metadata-only iterator (PullParser::into_meta_iter) *)
+Theorem C03_meta_events_total :
+  forall (U : N -> ucls) (cfg : pcfg) (s : str),
+    p_strict_escape cfg = false -> exists evs, meta_events U cfg s = Done evs.
+Proof. intros U cfg s H. destruct (meta_events_ok U cfg s H) as (evs & E & _). exists evs. exact E. Qed.
+Print Assumptions C03_meta_events_total.
+
+(* the hypothesis is satisfiable: the configuration the runner uses for the current code *)
+Example C03_current_cfg :
+  exists cfg, p_strict_escape cfg = false /\ p_note_label_old cfg = false /\ p_fm_anywhere cfg = false.
+Proof.
+  exists {| p_ext := 0; p_debug := true; p_strict_escape := false; p_note_label_old := false; p_fm_anywhere := false |}.
+  repeat split.
+Qed.
+
+(* block splitting: in [next_block]/[more_lines] the model does not distinguish "out of fuel" from
+   "no more blocks", so totality alone would not show termination there; the fuel the model
+   passes, S (length ts), gives the same result as any larger amount, i.e. it never runs out *)
+Theorem C03_block_split_fuel_stable :
+  forall fuel ts, (length ts < fuel)%nat -> next_block fuel ts = next_block (S (length ts)) ts.
+Proof. exact next_block_fuel. Qed.
+Print Assumptions C03_block_split_fuel_stable.
+
+Theorem C03_more_lines_fuel_stable :
+  forall fuel ts, (length ts < fuel)%nat -> more_lines fuel ts = more_lines (S (length ts)) ts.
+Proof. exact more_lines_fuel. Qed.
+Print Assumptions C03_more_lines_fuel_stable.
+
+(* the code before the repair of block_parser.rs:156 (debug_assert on the byte length of an
+   escaped token): the statement without its hypothesis is false, witness "\" U+00E9 *)
+Theorem C03_events_total_refuted_old :
+  exists U cfg s, p_strict_escape cfg = true /\ events U cfg s = Panic site_escaped_len.
+Proof. exact strict_escape_old_refuted. Qed.
+Print Assumptions C03_events_total_refuted_old.
